@@ -86,6 +86,9 @@ def measure(read, r):
     return dict(path_exists=True, size=len(data), md5=hashlib.md5(data).hexdigest(), datarows=nrows)
 
 
+RESNAME = 'res.%d'         # dotted names that agree up to the first dot: every resource still gets a file of its own
+
+
 def dump_once(case, root, tag):
     """returns (written descriptor, stats, returned dp descriptor, incoming descriptor, reader)"""
     import dataflows as DF
@@ -100,7 +103,7 @@ def dump_once(case, root, tag):
         for rows in srcs:
             if rows:
                 rows.insert(1, dict(a='not-a-number', b='dropped'))
-    src = tuple_source([('res%d' % (i + 1), [('a', 'integer'), ('b', 'string')], rows) for i, rows in enumerate(srcs)])
+    src = tuple_source([(RESNAME % (i + 1), [('a', 'integer'), ('b', 'string')], rows) for i, rows in enumerate(srcs)])
     out = os.path.join(root, tag)
     opts = dict(format=case['format'], counters=copy.deepcopy(COUNTERS[case['counters']]), add_filehash_to_path=case['filehash'],
                 pretty_descriptor=case['pretty'])
@@ -111,7 +114,7 @@ def dump_once(case, root, tag):
         # an earlier dump of other rows (one more row per resource) into the very same target, same options: afterwards the
         # descriptor on disk must describe THIS dump (with add_filehash_to_path the data files of both dumps coexist)
         os.makedirs(out, exist_ok=True)
-        other = tuple_source([('res%d' % (i + 1), [('a', 'integer'), ('b', 'string')], [dict(a=0, b='earlier')] + [dict(r_) for r_ in rows])
+        other = tuple_source([(RESNAME % (i + 1), [('a', 'integer'), ('b', 'string')], [dict(a=0, b='earlier')] + [dict(r_) for r_ in rows])
                               for i, rows in enumerate(srcs)])
         first = DF.dump_to_path(out, **copy.deepcopy(opts)) if case['target'] == 'path' else DF.dump_to_zip(os.path.join(out, 'o.zip'), **copy.deepcopy(opts))
         DF.Flow(other, first).process()
